@@ -14,6 +14,13 @@ Spec functions (uninterpreted, independent of the code): LOADED(i, ov) = load_da
 ov applied, EXEC(net) = Executor.execute(net), PROPOSAL(epoch, k) = what the k-th prepare_new_batch call after the epoch-th
 creation of the SMC round generator returns.
 
+Functions under contract (real bodies): BatchHandler.__init__ / submit / wait_next / cancel_pending / reset / has_ready(any=False) /
+next_index / total / num_pending / num_ready / has_pending / pending_indices / compute, ClientBase.submit / compute,
+ParameterInference.__init__ / _allow_submit / _has_batches_to_submit / finished / _objective_n_batches / iterate / infer (with the real
+base prepare_new_batch and update inlined where they are the callee), native Client.apply / apply_sync / get_result / is_ready /
+remove_task / reset / num_cores, SMC.update (with _init_new_round, _set_rejection_round, _update_objective inlined) /
+prepare_new_batch / _init_new_round / _set_rejection_round.
+
 The effect functions eff_* are the single statement of each handler contract: the callee contract proves "state after the REAL
 body == eff(state before)", the callers (iterate, infer, reset, SMC.update) use the same eff as the stub of the callee.
 """
@@ -24,7 +31,8 @@ MANIFEST = {
             '(pending keys = contiguous index range with distinct live task ids holding the net of their index); ParameterInference.iterate is verified for all oracle answers to '
             'perform exactly one update(EXEC(LOADED(i, override_i)), i) with i = number of batches consumed so far, never more than max_parallel_batches outstanding; '
             'infer consumes indices c0, c0+1, ... each once, ends finished with no pending batch and no task of this handler left in the client, and consumes exactly '
-            'objective-many batches when update leaves the objective alone; the native client implements the abstract client contract; SMC.update / prepare_new_batch / '
+            'objective-many batches when update leaves the objective alone; the constructors establish the preconditions (empty handler, max_parallel_batches >= 1); '
+            'the native client implements the abstract client contract; SMC.update / prepare_new_batch / '
             '_init_new_round / _set_rejection_round keep the round discipline (proposal of pending batch i = PROPOSAL(epoch, i - round_start); generator re-created only with the '
             'index rewound; cancelled batches never reach update). A schedule-driven ClientBase subclass enumerating all is_ready answer strings and execution orders on the '
             'real Rejection / SMC is the labelled bounded stand-in and replay vehicle.',
